@@ -22,6 +22,7 @@ def run(ctx, chk):
     ctx.prefetch(["bin"])
     f = ctx.facts("bin", "aisparser")
     I = Interp(f, xform.EXT)
+    I.watch_all = 1
     mains = [b for b in f.bodies.values() if b["def"] == f.crate + "::main"]
     chk.ob(len(mains) == 1, "C20/main/%d" % len(mains), "main not found in the binary")
     if not mains:
@@ -37,6 +38,17 @@ def run(ctx, chk):
         chk.ob(not ad, "C20/adaptor/%r" % (ad,), "the line iterator goes through %r, which can drop lines or stop before the end of input" % (ad,))
         dr = [e for e in st.events if e[0] == "drain"]
         chk.ob(len(dr) == 1, "C20/drain/%d" % len(dr), "the line iterator is drained %d times" % len(dr))
+    # ---- (d) the tool itself never touches the parser between lines: the only access to the
+    #      parser object after the line loop has started is the library call on it
+    for (st, rv) in outs:
+        pcs = set(e[2][0] for e in st.events if e[0] == "extcall" and e[1].endswith("AisParser::parse") and e[2] and e[2][0])
+        started = False
+        for e in st.events:
+            if e[0] == "drain":
+                started = True
+            if started and e[0] == "store" and any(e[1] == c[0] for c in pcs):
+                chk.ob(False, "C20/parser-state-written/%r" % (e[2],), "the tool overwrites the parser object while processing lines (store through %r): the handling of later lines then depends on this line" % (e[2],))
+    chk.ob(True, sample={"parser_object": "only passed to AisParser::parse"})
     # ---- (b) one record per line on the right stream
     kinds = {}
     for (st, rv) in outs:
